@@ -507,6 +507,35 @@ def rule_placeholders(ctx):
         for bi, si, s in field_assigns(fn, "idx", "Match"):
             if si != "term" and is_max(fn.expr_of_rvalue(s["rv"])):
                 sites.append((bi, si))
+        # a placeholder built once in the enclosing function and captured (`let tombstone = Match { .. u32::MAX }`): in the
+        # function itself the literal creates nothing (it is only handed to closures); in a closure, every use of the
+        # captured value is a placeholder site
+        def _only_captured(l_):
+            us_ = uses_of_local(fn, l_)
+            return bool(us_) and all(u_[0] == "stmt" and u_[3]["rv"].get("agg") == "closure" or (u_[0] == "stmt" and "ref" in u_[3]["rv"]) for u_ in us_)
+        if fn.b.get("kind") != "Closure":
+            sites = [(bi, si) for bi, si in sites if not (isinstance(si, int) and fn.blocks[bi]["stmts"][si]["k"] == "assign" and not fn.blocks[bi]["stmts"][si]["lhs"]["p"]
+                                                           and fn.blocks[bi]["stmts"][si]["rv"].get("agg") == "adt" and _only_captured(fn.blocks[bi]["stmts"][si]["lhs"]["l"]))]
+        else:
+            from common import resolve_capture
+            for bi in sorted(fn.live):
+                for si, s_ in enumerate(fn.blocks[bi]["stmts"]):
+                    if s_["k"] != "assign" or not isinstance(s_["rv"].get("use"), dict):
+                        continue
+                    pl_ = s_["rv"]["use"].get("copy") or s_["rv"]["use"].get("move")
+                    if pl_ is None or pl_["l"] != 1:
+                        continue
+                    cap_ = [e_.get("name") for e_ in pl_["p"] if isinstance(e_, dict) and "name" in e_]
+                    if len(cap_) != 1:
+                        continue
+                    rc_ = resolve_capture(fn, cap_[0])
+                    if rc_ is None:
+                        continue
+                    ce_ = strip_casts(rc_[1])
+                    while ce_[0] in ("ref", "deref"):
+                        ce_ = strip_casts(ce_[1])
+                    if ce_[0] == "agg" and str(ce_[1]).startswith("Match") and "idx" in ce_[2] and is_max(ce_[2]["idx"]):
+                        sites.append((bi, si))
         incs = [ibi for ibi, it in fn.calls(lambda t: atomic_op(t) == "fetch_add") if classify(fn, fn.expr_of_operand(it["args"][0])) == "unmatched"]
         for bi, si in sites:
             n_sites += 1
